@@ -4,7 +4,7 @@
    Flavour slots: every case carries a mask (bit 0 avx2, bit 1 avx, bit 2 sse) of the flavours that were run; the result
    slots of a flavour the CPU lacks are ignored. *)
 From Coq Require Import ZArith List Bool.
-From DG Require Import CaseFormat ProtoWireRef ThriftWire Json Num Base64.
+From DG Require Import CaseFormat ProtoWireRef ThriftWire ThriftEnvelope Json Num Base64.
 Import ListNotations.
 Local Open Scope Z_scope.
 
@@ -352,6 +352,35 @@ Definition check_1801 (fs : list field) : verdict :=
   match parse_shape fs with
   | Some (ds, root, [FZ ob; FB doc; FZ mask; FB o0; FZ e0; FB o1; FZ e1; FB o2; FZ e2; FB op; FZ ep]) =>
     judge_1801 ds root ob doc (sel mask [(e0, o0); (e1, o1); (e2, o2)]) (ep, op)
+  | _ => VBad 99 []
+  end.
+
+(* 1809: HTTP-mapped requests. fields: option bits (C17's numbering), body kind, JSON body, populated sources (replay only), mask, then
+   (output, err) for avx2, avx, sse, portable; err: 0 ok, 1 error, 3 panic, 5 request not built.
+   The VALUE is C17's property (its model judges the default flavour and the portable converter); here: the flavours agree with each other
+   (VBad 1 otherwise) and with the portable converter (VBad 2), all four reject or all four produce identical bytes. *)
+Definition check_1809 (fs : list field) : verdict :=
+  match fs with
+  | [FZ bits; FZ bk; FB body; FB src; FZ mask; FB o0; FZ e0; FB o1; FZ e1; FB o2; FZ e2; FB op; FZ ep] =>
+    let nats := sel mask [(e0, o0); (e1, o1); (e2, o2)] in
+    if existsb (fun r => fst r =? 5) ((ep, op) :: nats) then VSkip else
+    if existsb (fun r => fst r =? 3) ((ep, op) :: nats) then VBad 6 [] else
+    match nats with
+    | [] => VSkip
+    | n0 :: _ =>
+      if negb (all_same res_eqb nats) then VBad 1 []
+      else if res_eqb n0 (ep, op) then VOk
+      else
+        (* finding 1809: with the traceback flag (ReadHttpValueFallback / TracebackRequredOrRootFields) the native state machine fills in
+           the absent non-traceback fields of a struct itself and hands the required / root ones back to Go, which writes them AFTER
+           those; the portable converter fills in all of them in id order: the same value with the struct fields in another order *)
+        if (fst n0 =? 0) && (ep =? 0) && negb (Z.land bits 24 =? 0) then
+          match safe_decode (snd n0), safe_decode op with
+          | Some vn, Some vp => if bytes_eqb (encode (canon vn)) (encode (canon vp)) then VKnown 1809 else VBad 2 [FB (snd n0)]
+          | _, _ => VBad 2 [FB (snd n0)]
+          end
+        else VBad 2 [FB (snd n0)]
+    end
   | _ => VBad 99 []
   end.
 
